@@ -124,6 +124,12 @@ def operations():
     def op_prune(r, info):
         r.object_store.prune(grace_period=0)
 
+    def op_commit_unborn(r, info):
+        # a ref that does not resolve yet: the new root commit has to be in the store before the ref names it
+        t = repos.mk_tree(r.object_store, {b"first": (0o100644, b"first file on a new branch\n")})
+        r.get_worktree().commit(message=b"root of a new branch\n", committer=ID, author=ID, commit_timestamp=1_000_000_600, commit_timezone=0,
+                                author_timestamp=1_000_000_600, author_timezone=0, tree=t, ref=b"refs/heads/newborn")
+
     def op_index_write(r, info):
         from dulwich.index import IndexEntry
 
@@ -159,7 +165,7 @@ def operations():
         porcelain.fetch(r, peer, outstream=io.BytesIO(), errstream=io.BytesIO())
 
     return {
-        "add_object": op_add_object, "add_objects": op_add_objects, "commit": op_commit, "set_if_equals": op_set_if_equals,
+        "add_object": op_add_object, "add_objects": op_add_objects, "commit": op_commit, "commit(unborn ref)": op_commit_unborn, "set_if_equals": op_set_if_equals,
         "remove_if_equals": op_remove_if_equals, "remove_if_equals(tag)": op_remove_tag, "set_symbolic_ref": op_set_symbolic_ref,
         "pack_refs": op_pack_refs, "add_packed_refs": op_add_packed_refs, "add_thin_pack": op_add_thin_pack, "add_pack": op_add_pack,
         "pack_loose_objects": op_pack_loose, "repack": op_repack, "repack(exclude)": op_repack_exclude, "gc(grace=None)": op_gc,
@@ -460,7 +466,7 @@ def scenarios(ctx):
             out.append((lay, rl, op, False))
     # power-loss model with core.fsyncObjectFiles
     for lay, rl in (layouts if ctx.thorough else layouts[:1] + layouts[2:3]):
-        for op in ("add_object", "commit", "add_objects", "add_thin_pack", "pack_loose_objects") if not ctx.thorough else ops:
+        for op in ("add_object", "commit", "commit(unborn ref)", "add_objects", "add_thin_pack", "pack_loose_objects") if not ctx.thorough else ops:
             if op in NEEDS_PACKS and lay == "loose":
                 continue
             out.append((lay, rl, op, True))
